@@ -269,7 +269,14 @@ func (w *zzC08World) compare() bool {
 				eq(rl.Address().String() == fl.Address().String(), "last-internal-address")
 			}
 		}
-		// sync state
+		// sync state and mode
+		eq(w.mgr.WatchOnly() == fresh.WatchOnly(), "watching-only-flag")
+		rb, rv, rerr := w.mgr.BirthdayBlock(ns)
+		fb, fv, ferr := fresh.BirthdayBlock(ns)
+		eq((rerr == nil) == (ferr == nil) && (rerr != nil || (rb.Height == fb.Height && rb.Hash == fb.Hash && rv == fv)), "birthday-block")
+		_, rserr := w.mgr.FetchScopedKeyManager(KeyScope{Purpose: 1017, Coin: 0})
+		_, fserr := fresh.FetchScopedKeyManager(KeyScope{Purpose: 1017, Coin: 0})
+		eq((rserr == nil) == (fserr == nil), "custom-scope-known")
 		eq(w.mgr.Birthday().Unix() == fresh.Birthday().Unix(), "birthday")
 		rs, fs := w.mgr.SyncedTo(), fresh.SyncedTo()
 		eq(rs.Height == fs.Height && rs.Hash == fs.Hash && rs.Timestamp.Unix() == fs.Timestamp.Unix(), "synced-to")
